@@ -16,7 +16,11 @@ def hexs(b):
     return b.hex() if b else "-"
 
 
-def body_line(rng, kind=None, alphabet=(b"aaa", b"bbb", b"ccc", b"", b"x y", b"\\ not a tag", b"@@ -1 +1 @@", b"--- a/f", b"+++ b/f", b"diff --git a/f b/f")):
+LONG_UTF8 = ("\u00e9" * 40).encode() + b"x"      # multi-byte characters across any small cut position
+LONG_UTF8_ODD = b"a" + ("\u00e9" * 45).encode()
+
+
+def body_line(rng, kind=None, alphabet=(b"aaa", b"bbb", b"ccc", b"", b"x y", b"\\ not a tag", b"@@ -1 +1 @@", b"--- a/f", b"+++ b/f", b"diff --git a/f b/f", LONG_UTF8, LONG_UTF8_ODD, b"\xff" * 90)):
     kind = kind or rng.choice([b" ", b" ", b"+", b"-", b"\t", b""])
     txt = rng.choice(alphabet)
     if rng.random() < 0.05:
